@@ -48,7 +48,8 @@ def specs(tier):
     # went unnoticed by C01 while these lived in C02 alone)
     return [*templates.all_templates(3 if tier == "quick" else 5, kids="impl"), ops.RuleSpec(4, None, "impl"),
             ops.SkipUntilSpec(), ops.RegexNodeSpec("RegexExpression"), ops.RegexNodeSpec("OptimizedChoice"),
-            *templates.skipuntil_templates(), *templates.regex_node_templates(), ModuleNames(), GeneratorFrameAudit()]
+            *templates.skipuntil_templates(), *templates.regex_node_templates(), ModuleNames(), GeneratorFrameAudit(),
+            templates.StubsRepresentative(), *templates.delegating_generate_specs()]
 
 
 concretise = concretise_ops(PROPERTY, default_modes=("interp", "gen", "interp+opt", "gen+opt"))
